@@ -336,8 +336,12 @@ def build_register(fns):
     # narrowing casts in the chunk-lookup insertion loop: the value stored as u16 is below 2^16 on the path
     loops = mir.natural_loops(f)
     heads = [h for h, body in loops.items() if any(re.search(r"HashMap::<u64, (\w+::)*ChunkCacheElement>::insert", f.blocks[b][1]) for b in body)]
+    keep_first = [b for b in g.nodes if g.callee(b) and re.search(r"Entry::<'?_?,? ?u64, (\w+::)*ChunkCacheElement.*>::or_insert(_with)?$|HashMap::<u64, (\w+::)*ChunkCacheElement.*>::try_insert$", g.callee(b))]
+    sc.query("the chunk lookup is filled with an overwriting insert: the shard registered last replaces older entries for a chunk (keep-first calls found: %d)"
+             % len(keep_first), ["true"] if (keep_first or not heads) else ["false"])
     if not heads:
-        raise LookupError("register_shards: chunk lookup insertion loop not found")
+        sc.declare([])
+        return [sc]
     head = min(heads, key=lambda h: len(loops[h]))
     s = symex.Sym(f, prefix="rg.", models=symex.STD_MODELS, max_visits=1)
     n = 0
@@ -364,6 +368,25 @@ def build_register(fns):
         sc.query("the chunk lookup stores offsets as u16 after a range check", ["true"])
     sc.declare(s.decls)
     return [sc]
+
+
+def replay_register(model, fnd, prop):
+    """registration replays: several keys in one directory (C18); under C11 also the history 'a registered shard vanishes, a later
+    session registers the same chunks again'"""
+    env = base_env()
+    env["CARGO_TARGET_DIR"] = os.path.join(BUILD, "replay_target")
+    tests = ["c18_mixed_key_dedup"] + (["c11_stale_lookup_entry"] if prop == "C11" else [])
+    cmd = ["cargo", "test", "--offline", "--no-fail-fast"] + [x for t in tests for x in ("--test", t)]
+    rc, out = sh(cmd, cwd=os.path.join(VERIF, "replay"), env=env, timeout=2400, log=os.path.join(LOGS, "replay_register_%s.log" % prop))
+    path = os.path.join(VERIF, "replay", "tests", tests[0] + ".rs")
+    if "test result: FAILED" in out:
+        if "a_later_registration_replaces_entries_of_a_vanished_shard ... FAILED" in out:
+            path = os.path.join(VERIF, "replay", "tests", "c11_stale_lookup_entry.rs")
+        m = re.search(r"C1[18] violated: [^\n]*", out)
+        return True, path, m.group(0)[:240] if m else "native replay fails"
+    if len(re.findall(r"test result: ok\. [1-9]\d* passed", out)) == len(tests):
+        return False, path, "native replays pass: registered shards answer (several keys; re-registration after a shard vanished)"
+    return None, path, "native replay inconclusive (rc=%s)" % rc
 
 
 def replay(model, fnd, prop):
@@ -396,5 +419,5 @@ SMT = [Q("c18_expiry", "load / delete decisions of keyed shards as functions of 
          solvers=("z3", "cvc5-bv"), replay=native_test("c18_expiry_native", "C18 violated", "native replay passes")),
        Q("c18_register_shards", "shard registration: per-iteration collection index, u16 offsets checked", "mdb_shard", build_register,
          functions=["mdb_shard::shard_file_manager::ShardFileManager::register_shards"], bounds="all CFG paths; one iteration of the lookup insertion loop",
-         solvers=("z3", "cvc5-bv"), replay=native_test("c18_mixed_key_dedup", "C18 violated", "native replay passes: shards under several keys in one directory all answer"))]
+         solvers=("z3", "cvc5-bv"), replay=lambda m, f, p: replay_register(m, f, p))]
 KANI = []
